@@ -48,6 +48,8 @@ pub const CLASSES: [&str; 27] = [
 ];
 
 struct Base {
+    /// diagnostics the fault-free run displays (set once that run is in)
+    twin_displayed: usize,
     project: Project,
     style: Style,
     style_seed: u64,
@@ -89,8 +91,13 @@ fn build_base(seed: u64, i: usize) -> Base {
         let (call, errno) = *r_plan.pick(&[("create", libc::EACCES), ("create", libc::ENOSPC), ("write", libc::ENOSPC), ("write", libc::EDQUOT)]);
         plan.faults.push(Fault { call: call.into(), errno, occurrence: 1, suffix: "out.sarif".into() });
     }
+    // a loaded machine: any clock read may come 11 s late. Whatever is time-boxed may be cut
+    // short; no definition may go unanalysed without a word because of that
+    if r_plan.chance(1, 5) {
+        plan.stall_permille = *r_plan.pick(&[30, 200, 1000]);
+    }
     let case = make_case(&project, world, &opts, plan);
-    Base { project, style, style_seed, opts, case }
+    Base { twin_displayed: 0, project, style, style_seed, opts, case }
 }
 
 fn render_world(p: &Project, style: &Style, style_seed: u64) -> World {
@@ -160,6 +167,18 @@ fn plant(b: &Base, class: &'static str, rng: &mut Rng) -> Option<Planted> {
         "missing:vanishes-after-realpath" => {
             // resolves, then is gone when it is opened (errno -2 = succeed, then unlink)
             case.plan.faults.push(Fault { call: "realpath".into(), errno: -2, occurrence: 1, suffix: target.clone() });
+        }
+        "missing:absent-file" if rng.chance(1, 4) => {
+            // so many absent files that the number of displayed reports is a multiple of 256
+            let n = 256 * (1 + rng.usize(2)) - (b.twin_displayed % 256);
+            where_ok.clear();
+            for k in 0..n {
+                let ghost = format!("ghost{k}.circom");
+                case.argv.push(ghost.clone());
+                named.push(ghost.clone());
+                where_ok.push(ghost);
+            }
+            detail = format!("{n} absent files ({} reports in all)", n + b.twin_displayed);
         }
         "missing:absent-file" => {
             let ghost = "ghost.circom".to_string();
@@ -685,7 +704,7 @@ fn multiset_with_pos(out: &crate::outparse::Stdout, world: &World) -> Vec<NF> {
 
 fn one(runner: &Runner, seed: u64, i: usize, per_project: usize, sweep_class: Option<&'static str>) -> Res {
     let mut res = Res { runs: 0, planted: vec![], violations: vec![], skipped_crash: 0, harness_err: None, fps: vec![], sim_ns: 0, sarif_faults_fired: 0 };
-    let b = build_base(seed, i);
+    let mut b = build_base(seed, i);
     let twin = match runner.run(&b.case) {
         Ok(o) => o,
         Err(e) => {
@@ -699,6 +718,7 @@ fn one(runner: &Runner, seed: u64, i: usize, per_project: usize, sweep_class: Op
         res.skipped_crash += 1;
         return res;
     }
+    b.twin_displayed = parse_stdout(&twin.stdout).diags.len();
     // converse clause on the fault-free run as well
     if let Err(msg) = clean_verdict_justified(&twin, &b.project.named_paths(), &b.project.named_defs()) {
         res.violations.push((
@@ -723,7 +743,25 @@ fn one(runner: &Runner, seed: u64, i: usize, per_project: usize, sweep_class: Op
             Some(c) => c,
             None => CLASSES[(i * per_project + k + r.usize(CLASSES.len())) % CLASSES.len()],
         };
-        let Some(pl) = plant(&b, class, &mut r) else { continue };
+        let Some(mut pl) = plant(&b, class, &mut r) else { continue };
+        // the failing named file also exists, byte for byte, as a vendored copy that another
+        // named file includes (and that is parsed first): the named one is still a named one
+        let in_content = ["syntax:", "tuple:", "anon:in-function", "anon:wrong", "anon:unknown", "anon:surplus", "params:", "pragma:", "torn:"].iter().any(|p| class.starts_with(p));
+        if in_content && r.chance(1, 6) {
+            let target = pl.where_ok.first().cloned().unwrap_or_default();
+            if let Some(body) = pl.case.world.files.get(&target).cloned() {
+                if pl.case.argv.iter().any(|a| a == &target) && !target.contains('/') {
+                    let copy = format!("vendor/{target}");
+                    pl.case.world.files.insert(copy.clone(), body);
+                    pl.case.world.put("zz_holder.circom", &format!("pragma circom 2.0.0;\ninclude \"{copy}\";\n"));
+                    pl.case.argv.push("zz_holder.circom".into());
+                    pl.named.push("zz_holder.circom".into());
+                    pl.where_ok.push(copy);
+                    pl.where_ok.push("zz_holder.circom".into());
+                    pl.detail.push_str(" [with a byte-identical vendored copy included by a file parsed earlier]");
+                }
+            }
+        }
         let o = match runner.run(&pl.case) {
             Ok(o) => o,
             Err(e) => {
